@@ -172,6 +172,10 @@ def build_survey(cfg):
             if mask.all():
                 mask.flat[0] = False
             data[mask] = np.nan + 1j * np.nan
+        if cfg.get('empty_rec') and shape[1] > 1:
+            data[:, -1, :] = np.nan + 1j * np.nan      # a receiver w/o data
+        if cfg.get('empty_src') and shape[0] > 1:
+            data[0, :, :] = np.nan + 1j * np.nan       # a source w/o data
     return emg3d.Survey(
         sources=emg3d.surveys.txrx_lists_to_dict(srcs),
         receivers=emg3d.surveys.txrx_lists_to_dict(recs),
